@@ -89,6 +89,15 @@ var propCfgs = []*propCfg{
 		Stub:     []string{"the handle and redraw callbacks (harness functions that record and yield)", "terminal, editor widgets: not involved"},
 		Assumptions: simgoAssumptions,
 	},
+	{
+		ID: "C30", Level: "exploration", SimEngine: "simgo",
+		Quick:    tierCfg{Seeds: 3000, Secs: 60, Batch: 50},
+		Thorough: tierCfg{Seeds: 200000, Secs: 600, Batch: 100},
+		Rule:     "one evaluation = one simulated editing session: a tape-generated sequence of 1..25 (thorough 1..80) codes (valid programs, prefixes, one-byte deletions, metacharacter soup, invalid UTF-8, revisited earlier codes) passed to the real Highlighter.Get, with command lookups delayed by tape-chosen fake times below / just under / just over / above the 10 ms blocking window, the editor re-Getting the current code on every late-update signal, and a concurrent invalidator; distinct = distinct interleaving signature; non-trivial = at least one scheduling choice",
+		Real:     []string{"pkg/edit/highlight Highlighter.Get/LateUpdates/InvalidateCache, highlight() incl. its select on time.After, getRegions/fixRegions, segment assembly; pkg/parse; eval.CheckTree as the Check callback"},
+		Stub:     []string{"Config.HasCommand (harness lookup with a fake delay per call)", "the editor (a task that follows the application's Get / late-update protocol)"},
+		Assumptions: simgoAssumptions,
+	},
 }
 
 func findProp(id string) *propCfg {
